@@ -402,3 +402,8 @@ def c05_growing(n: int) -> list:
     """returns the same module-level list, grown, on every call"""
     C05_GROWING.extend(range(len(C05_GROWING), len(C05_GROWING) + n))
     return C05_GROWING
+
+
+# ---- C16: a second keyed task (a task id maps to one Task per app) ------------------------------
+def c16_b(k: str, v: str = "d", w: str = "e") -> str:
+    return f"{k}/{v}/{w}"
